@@ -74,7 +74,8 @@ impl FdCapture {
 /// Where per-process scratch lives (tmpfs, outside any git repository).
 pub fn scratch_root() -> PathBuf {
   let base = if Path::new("/dev/shm").is_dir() { PathBuf::from("/dev/shm") } else { std::env::temp_dir() };
-  base.join(format!("agsim-{}", std::process::id()))
+  // fixed width: message sizes (absolute URIs) must not depend on the number of pid digits
+  base.join(format!("agsim-{:010}", std::process::id()))
 }
 
 pub fn reset_dir(p: &Path) {
@@ -132,10 +133,7 @@ pub fn run_cli(dir: &Path, args: &[String], hash_seed: u64, sched: Option<SchedC
 
 /// Silence the default panic hook for simulated threads (panics are recorded events).
 pub fn quiet_panics() {
-  std::panic::set_hook(Box::new(|info| {
-    let name = std::thread::current().name().map(|s| s.to_string()).unwrap_or_default();
-    if name == "main" {
-      eprintln!("harness panic: {info}");
-    }
-  }));
+  // panics of simulated threads / the simulated server are recorded events; harness panics
+  // are caught by the worker loop and reported as HARNESS-ERROR with their message
+  std::panic::set_hook(Box::new(|_info| {}));
 }
